@@ -12,6 +12,7 @@ cls = getattr(mod, prop)
 tier = os.environ.get("VERIF_TIER", "quick")
 seed = int(sys.argv[3]) if len(sys.argv) > 3 else framework.DEFAULT_SEEDS[tier]
 framework.build()
+framework.build("small")
 eng = cls(tier, seed)
 if sys.argv[2].endswith(".json"):
     plan = json.load(open(sys.argv[2]))["plan"]
